@@ -196,10 +196,15 @@ def run(ctx, spec=SPEC, cls_fn=cache_class, name="LRUCache", neg_consts=None, pr
     neg.update(neg_consts or {"Evict": '"mru"'})
     model.mc(spec, neg, ctx, name + "_neg", invariants=invs, properties=props, expect_violation=True)
     # 2. complete transition relation -> real code
-    g, _ = graphwalk.emit_graph(spec, model.cfg_text(consts, view="View", action_constraint="Emit"), ctx, name)
     adapter = MappingAdapter(cls_fn())
-    stats = graphwalk.walk(g, adapter, ctx, name, sig_fn=sig_fn, paths_per_state=2, history_ops=("clear", "popitem"))
-    ctx.note("walk %s" % stats)
+    from vlib import par
+    jobs = []
+    for cap in consts["Caps"].strip("{}").split(","):
+        cc = dict(consts, Caps="{%s}" % cap.strip())
+        g, _ = graphwalk.emit_graph(spec, model.cfg_text(cc, view="View", action_constraint="Emit"), ctx, name + "_cap" + cap.strip())
+        jobs.append((g, adapter, name, dict(sig_fn=sig_fn, paths_per_state=2, history_ops=("clear", "popitem"))))
+    for stats in par.walks(ctx, jobs):
+        ctx.note("walk %s" % stats)
     ctx.exhaustive = True
     # 3. long random histories on larger domains -> TLC
     rnd = random.Random(ctx.seed * 7919 + 6)
